@@ -119,7 +119,7 @@ func runC04(c *fw.Ctx) {
 			{Kind: "Upload", Proto: "media", Bucket: "b", Name: "x", Data: []byte("NEW"), Meta: gcs.ObjMeta{ContentType: "text/new"}, Conds: conds},
 			{Kind: "Upload", Proto: "multipart", Bucket: "b", Name: "x", Data: []byte("NEW"), Meta: newMeta, Conds: conds},
 			{Kind: "Upload", Proto: "resumable", Bucket: "b", Name: "x", Data: []byte("NEW"), Meta: newMeta, Conds: conds},
-			{Kind: "Upload", Proto: "resumable", Bucket: "b", Name: "x", Data: []byte("NEW"), Meta: newMeta, Conds: conds, Chunks: []GChunk{{0, 1, -1, false}, {1, 3, 3, false}},
+			{Kind: "Upload", Proto: "resumable", Bucket: "b", Name: "x", Data: []byte("NEW"), Meta: newMeta, Conds: conds, Chunks: []GChunk{{Lo: 0, Hi: 1, Total: -1}, {Lo: 1, Hi: 3, Total: 3}},
 				Between: &GOp{Kind: "Upload", Proto: "media", Bucket: "b", Name: "x", Data: []byte("between"), Meta: ct}},
 			{Kind: "Upload", Proto: "resumable", Bucket: "b", Name: "x", Data: []byte("NEW"), Meta: newMeta, Conds: conds,
 				Between: &GOp{Kind: "Delete", Bucket: "b", Name: "x"}},
